@@ -139,8 +139,8 @@ Example ex_globstar : globstarToEscapedRegexp [42;42;47;42;46;123;99;115;115;44;
   = Ok (([94] ++ gs_globstar ++ gs_segment ++ [92;46;92;123;99;115;115;44;115;99;115;115;36])%list, true).
 Proof. vm_compute. reflexivity. Qed.
 (* the WTF-8 bytes of a lone surrogate are copied unchanged: structurally well-formed, not valid UTF-8 -
-   the real regexp package rejects it (replayed on the real code: finding C16-regexp-invalid-utf8) *)
+   the real regexp package rejects it (finding C16-regexp-invalid-utf8; since dfdee39 the caller uses regexp.Compile and skips the entry) *)
 Example ex_globstar_surrogate : globstarToEscapedRegexp [237;160;128;46;106;115] = Ok ([94;237;160;128;92;46;106;115;36], false).
 Proof. vm_compute. reflexivity. Qed.
-Example ex_regexp_sites : existsb (fun s => re_must s && negb (re_const s)) regexp_sites = true.
+Example ex_regexp_sites : existsb (fun s => negb (re_must s) && negb (re_const s)) regexp_sites = true.
 Proof. vm_compute. reflexivity. Qed.
